@@ -33,6 +33,22 @@ impl PartialOrdSpecImpl for Uint256 {
         if self.0.v() < o.0.v() { Some(Ordering::Less) } else if self.0.v() == o.0.v() { Some(Ordering::Equal) } else { Some(Ordering::Greater) }
     }
 }
+impl Eq for Uint256 {}
+impl Ord for Uint256 { #[verifier::external_body] fn cmp(&self, o: &Uint256) -> (r: Ordering) { unimplemented!() } }
+impl OrdSpecImpl for Uint256 {
+    open spec fn obeys_cmp_spec() -> bool { true }
+    open spec fn cmp_spec(&self, o: &Uint256) -> Ordering {
+        if self.0.v() < o.0.v() { Ordering::Less } else if self.0.v() == o.0.v() { Ordering::Equal } else { Ordering::Greater }
+    }
+}
+impl Eq for Decimal256 {}
+impl Ord for Decimal256 { #[verifier::external_body] fn cmp(&self, o: &Decimal256) -> (r: Ordering) { unimplemented!() } }
+impl OrdSpecImpl for Decimal256 {
+    open spec fn obeys_cmp_spec() -> bool { true }
+    open spec fn cmp_spec(&self, o: &Decimal256) -> Ordering {
+        if self.0.v() < o.0.v() { Ordering::Less } else if self.0.v() == o.0.v() { Ordering::Equal } else { Ordering::Greater }
+    }
+}
 pub broadcast proof fn axiom_uint256_into_self(x: Uint256) ensures #[trigger] IntoSpec::<Uint256>::into_spec(x) == x { admit(); }
 #[verifier::allow(broadcast_without_trigger)]
 pub broadcast proof fn axiom_uint256_into_obeys() ensures <Uint256 as IntoSpec<Uint256>>::obeys_into_spec() { admit(); }
